@@ -279,6 +279,19 @@ func (e *Engine) verifyFunc(key string) (ctx *FuncCtx) {
 	entry.pc = st.pc
 
 	outs := c.execBlock(st, fd.Body.List)
+	// vacuity guard: some path through the body reaches a return
+	if c.contract != nil {
+		var alts []string
+		for _, o := range outs {
+			if o.st.dead {
+				continue
+			}
+			alts = append(alts, mkAnd(o.st.pc.list()...))
+		}
+		if len(alts) > 0 {
+			c.obls = append(c.obls, &Obligation{Fn: key, Name: key + ".cover.exit", Kind: "cover", Pos: e.posStr(fd.Body.Rbrace), Tags: c.props, PC: (*PC)(nil).push(mkOr(alts...)), Goal: tFalse, ctx: c, Text: "the end of the function is reachable (path conditions are satisfiable)"})
+		}
+	}
 	for _, o := range outs {
 		switch o.kind {
 		case oNext, oReturn:
